@@ -38,7 +38,7 @@
 (*                                                                         *)
 (* Defect S6 (original code): the cache is keyed by the RAW int, so c[-1]  *)
 (* and c[len-1] are different slots.  Modelled behind "S6" \in Unfixed;    *)
-(* repaired = a negative index is normalised, IndexError if still < 0.     *)
+(* repaired = an in-range negative index is normalised before the lookup.  *)
 (***************************************************************************)
 EXTENDS Integers, Sequences, FiniteSets, TLC, Json, Defects
 
@@ -150,9 +150,10 @@ Res(st, ok, v, exc) == [st |-> st, ok |-> ok, v |-> v, exc |-> exc]
 GetIntLazy(par, st, inst, i) ==
   LET n    == NOf(par)
       orig == "S6" \in Unfixed
-      slot == IF orig \/ i >= 0 THEN i ELSE i + n
-  IN IF ~orig /\ slot < 0 THEN Res(st, FALSE, NoVal, "IndexError")
-     ELSE IF slot \in DOMAIN st.mem THEN Res(st, TRUE, st.mem[slot], "none")
+      \* repaired (commit 88bb9e3):  if item < 0 and -len(self) <= item: item += len(self)
+      \* (an index below -len stays raw: never stored, the upstream raises IndexError)
+      slot == IF ~orig /\ i < 0 /\ 0 - n <= i THEN i + n ELSE i
+  IN IF slot \in DOMAIN st.mem THEN Res(st, TRUE, st.mem[slot], "none")
      ELSE LET pos == PyPos(n, i) IN
           IF pos = 0 THEN Res(st, FALSE, NoVal, "IndexError")
           ELSE LET cv  == Compute(par, st.calls, pos)
